@@ -256,11 +256,12 @@ def generate_ack_id_contract():
                                                                z3.And(s == sid, k == rid))),
         }
         d.update(cb_ok(c.post))
-        d['callback-keys-issued-kept'] = z3.Implies(issued_ok(c.pre)['issued.callback-keys'], issued_ok(c.post)['issued.callback-keys'])
+        d['callback-keys-issued-kept'] = z3.Implies(z3.And(issued_ok(c.pre)['issued.callback-keys'], c.pre.get('g', 'issued').c['.'][c.a.sid]),
+                                                    issued_ok(c.post)['issued.callback-keys'])
         return d
     return Contract(
         target=BM + '_generate_ack_id', schema=W, self_obj='manager', params={'sid': 'V', 'callback': 'V'},
-        requires=lambda c: dict(cb_ok(c.pre), **{'sid-not-none': c.a.sid != NONE, 'sid-was-issued': c.pre.get('g', 'issued').c['.'][c.a.sid], 'callback-is-not-the-counter': c.a.callback != COUNTER, 'callback-is-truthy': z3.And(smt.truthy(c.a.callback), c.a.callback != NONE)}),
+        requires=lambda c: dict(cb_ok(c.pre), **{'sid-not-none': c.a.sid != NONE, 'callback-is-not-the-counter': c.a.callback != COUNTER, 'callback-is-truthy': z3.And(smt.truthy(c.a.callback), c.a.callback != NONE)}),
         cases=[Case('issues', result='I', post=post)],
         modifies=[CBS, NEXT], props=['C06'],
         must_fail=lambda c: {'issues:claims-id-1': c.res_v() == smt.box_int(z3.IntVal(1))})
